@@ -21,6 +21,7 @@ SIZES = {'quick': dict(n=3200, cli=80, sub=0, field=0), 'thorough': dict(n=48000
 REQUIRED = {
     tier: {
         'classifications-completed': 100,
+        'datasets-with-a-zero-threshold': 5,
         'datasets-with-10+-stretches': 3,
         'datasets-starting-at-epoch-zero': 3,
         'datasets-without-rain': 5,
